@@ -20,7 +20,8 @@ REASONS = {111: "failure-not-reported-to-master-with-original-identity", 112: "c
            113: "run-did-not-return", 114: "master-continued-ticking-after-failure", 115: "stop-set-differs-from-model"}
 
 
-def run_failing(cfg, devs, device, n, t_end=2_000_000_003, kind="device", bus=None):
+def run_failing(cfg, devs, device, n, t_end=2_000_000_003, kind="device", bus=None, also=None):
+    """also: a second device that fails at its n-th update as well (two failures in one tick when n = 1)"""
     import tickit.core.management.schedulers.master as mm
     import tickit.core.management.ticker as tk
     from tickit.core.adapter import AdapterContainer
@@ -63,7 +64,7 @@ def run_failing(cfg, devs, device, n, t_end=2_000_000_003, kind="device", bus=No
         ad = {d: adapters for d in slevel.devices_of(cfg)}
         if kind == "hook":
             ad[device] = failing_adapters
-        configs = slevel.build_configs(cfg, devs, 1, {device: n} if kind == "device" else {}, ad)
+        configs = slevel.build_configs(cfg, devs, 1, ({device: n, also: n} if also else {device: n}) if kind == "device" else {}, ad)
         backend = "internal"
         if bus is not None:
             # a conforming broker-like backend (harness/cbus.py) registered next to the shipped ones
@@ -82,7 +83,8 @@ def run_failing(cfg, devs, device, n, t_end=2_000_000_003, kind="device", bus=No
 
         async def hce(self, message):
             obs["reported"] = slevel.cid(message.source)
-            obs["same_error"] = isinstance(message.error, RuntimeError) and f"device c{device} fails" in str(message.error)
+            obs["same_error"] = isinstance(message.error, RuntimeError) and any(
+                f"device c{x} fails" in str(message.error) for x in ([device, also] if also else [device]))
             seen["after"] = True
             return await orig_hce(self, message)
 
@@ -198,14 +200,29 @@ def main(tier, seed):
                         if obs2["n_updates_of_device"] >= n:
                             cases.append(dict(cfg=cfg, devs=devs, device=d, n=n, kind=kind, obs=obs2, schedule=[pol, bseed]))
                             terms.append(render(cfg, d, obs2))
+    # two devices failing in the same tick (both at their first update, i.e. in the initial tick): whichever failure the
+    # master hears of first, the run must end the same way
+    ndouble = 0
+    for cfg, devs in configs(tier, random.Random(seed))[:3]:
+        dl = slevel.devices_of(cfg)
+        for i, d1 in enumerate(dl):
+            for d2 in dl[i + 1:]:
+                obs = run_failing(cfg, devs, d1, 1, kind="device", also=d2)
+                who = obs["reported"] if obs["reported"] in (d1, d2) else d1
+                path_of_who = slevel.path_of(cfg, who)[1]
+                if path_of_who and obs["reported"] not in (d1, d2):
+                    who = d1
+                cases.append(dict(cfg=cfg, devs=devs, device=who, n=1, kind="device", obs=obs, also=[d1, d2]))
+                terms.append(render(cfg, who, obs))
+                ndouble += 1
     bad = run_shards(PID, HEADER, "fs_case", "check_fs", terms, shard_size=60)
     for c in cases:
         ck.count(json.dumps([sprops.describe(dict(c, speed=(1, 1), initial=0, stim=[])), c["device"], c["n"], c["kind"]]),
                  len(slevel.path_of(c["cfg"], c["device"])[1]) >= 1 or c["n"] >= 2)
-    ck.rule = ("every (device, n-th update) failure point -- in the device's update and in an adapter's after_update hook -- with n <= %d on flat / nested / doubly nested configurations with sibling "
+    ck.rule = ("every pair of devices of the fixed configurations failing in the same (initial) tick; every (device, n-th update) failure point -- in the device's update and in an adapter's after_update hook -- with n <= %d on flat / nested / doubly nested configurations with sibling "
                "systems and on random nested configurations, run through TickitSimulation.run(); every device carries a blocking "
                "adapter task; non-trivial = failure inside a system simulation or after the initial tick" % nmax)
-    ck.coverage.update(failure_points=len(cases), disagreements=len(bad), under_delayed_delivery=sum(1 for c in cases if c.get("schedule")),
+    ck.coverage.update(failure_points=len(cases), double_failures_in_one_tick=ndouble, disagreements=len(bad), under_delayed_delivery=sum(1 for c in cases if c.get("schedule")),
                        nested_failures=sum(1 for c in cases if slevel.path_of(c["cfg"], c["device"])[1]),
                        initial_tick_failures=sum(1 for c in cases if c["n"] == 1))
     ck.sample(dict(device=cases[-1]["device"], n=cases[-1]["n"], observed=cases[-1]["obs"]))
@@ -218,9 +235,12 @@ def main(tier, seed):
                 continue
             done.add((code, nested))
             d = sprops.describe(dict(c, speed=(1, 1), initial=0, stim=[]))
-            d.update(device=c["device"], n=c["n"], fail_kind=c["kind"], observed=c["obs"], codes=bad[i], schedule=c.get("schedule"))
-            ck.report(REASONS[code] + ("-failure-inside-system" if nested else "-failure-at-top-level"),
-                      f"device c{c['device']} ({c['kind']}) fails at its update {c['n']}: {REASONS[code]}", d)
+            d.update(device=c["device"], n=c["n"], fail_kind=c["kind"], observed=c["obs"], codes=bad[i], schedule=c.get("schedule"),
+                     failing_devices=c.get("also"))
+            ck.report(REASONS[code] + ("-two-failures-in-one-tick" if c.get("also") else "")
+                      + ("-failure-inside-system" if nested else "-failure-at-top-level"),
+                      (f"devices {c['also']} both fail" if c.get("also") else f"device c{c['device']} ({c['kind']}) fails")
+                      + f" at update {c['n']}: {REASONS[code]}", d)
     return ck.finish()
 
 
@@ -232,8 +252,14 @@ def replay(rp):
     if rp.get("schedule"):
         from props import c08
         bus = c08.make_bus(rp["schedule"][0], rp["schedule"][1], cfg)
-    obs = run_failing(cfg, devs, rp["device"], rp["n"], kind=rp.get("fail_kind", "device"), bus=bus)
-    bad = run_shards("replay", HEADER, "fs_case", "check_fs", [render(cfg, rp["device"], obs)])
+    also = rp.get("failing_devices")
+    if also:
+        obs = run_failing(cfg, devs, also[0], rp["n"], kind="device", bus=bus, also=also[1])
+        who = obs["reported"] if obs["reported"] in also else also[0]
+    else:
+        obs = run_failing(cfg, devs, rp["device"], rp["n"], kind=rp.get("fail_kind", "device"), bus=bus)
+        who = rp["device"]
+    bad = run_shards("replay", HEADER, "fs_case", "check_fs", [render(cfg, who, obs)])
     print("observed:", obs)
     print("codes:", bad.get(0, []), [REASONS[c] for c in bad.get(0, [])])
     return 1 if bad else 0
